@@ -86,6 +86,7 @@ class Sched:
         self.novel_seen = set()
         self.novel_sleep = bool(self.strategy.get("novel_sleep", True))     # False: yield only (checks whose oracle bounds simulated time)
         self.stalls = 0
+        self.stall_time = 0.0      # simulated seconds added by novelty stalls (all threads); time oracles subtract it
 
     # -- choices ---------------------------------------------------------------
     def choose(self, n, tag="", gen=None):
@@ -340,6 +341,7 @@ class Sched:
                     if k == 1 or not self.novel_sleep:
                         self.yp("pre", (os.path.basename(frame.f_code.co_filename), frame.f_lineno))
                     else:
+                        self.stall_time += (0.011, 0.06)[k - 2]
                         self.sleep((0.011, 0.06)[k - 2])
         if event == "line" or event == "opcode":
             self.countdown -= 1
